@@ -135,8 +135,8 @@ func genHist(rng *rand.Rand, nops int) hist {
 
 type stats struct {
 	ops, snapshots, bytes, rewritingOps, exportOps int
-	sawRewriteRefresh, sawShared, sawStatic          bool
-	byOp                                             map[string]int
+	sawRewriteRefresh, sawShared, sawStatic        bool
+	byOp                                           map[string]int
 }
 
 type result struct {
@@ -235,11 +235,17 @@ func runHist(h hist) (res result) {
 			}
 		})
 		if hung {
-			viol("hang", vf.F("op", o.K, "session", actor, "addpath", actorAP), fmt.Sprintf("op %d %s on %s never returned; blocked in:\n%s", i, o.K, actor, stk))
+			viol("hang", vf.F("op", o.K, "addpath", actorAP), fmt.Sprintf("op %d %s on %s never returned; blocked in:\n%s", i, o.K, actor, stk))
 			return
 		}
 		if g != "" {
-			viol("panic", vf.F("op", o.K, "session", actor, "site", rig.PanicSite(g)), fmt.Sprintf("op %d %+v: panic: %s", i, o, g))
+			staticPresent := false
+			for _, a := range before[0].Attrs {
+				for _, x := range a {
+					staticPresent = staticPresent || x.Static
+				}
+			}
+			viol("panic", vf.F("op", o.K, "session", actor, "site", rig.PanicSite(g), "static_route_present", staticPresent), fmt.Sprintf("op %d %+v: panic: %s", i, o, g))
 			return
 		}
 		st.ops++
